@@ -18,8 +18,14 @@ Inductive case :=
 | CSplit (p : String.string) (seg : Z) (lens : list N) (content_ok panicked : bool)
     (* lens = lengths of the slices deliverSegments handed to its callback, in call order; content_ok = every
        slice was byte-for-byte payload[off:off+len] at the running offset off (checked by the shim) *)
-| CCmsg (buf : String.string) (gso : Z) (panicked : bool).
+| CCmsg (buf : String.string) (gso : Z) (panicked : bool)
     (* gso = parseRecvCmsg's result on a control buffer holding exactly buf *)
+| CListen (units : list (N * N)) (sent : list (N * N)) (delivered : list (N * N)).
+    (* system level, component `listenout`: the real StdConn.ListenOut on a loopback socket with UDP_GRO.
+       units = what the sender did: (bytes, UDP_SEGMENT size or 0 for a plain datagram);
+       sent = (length, hash) of every datagram that was on the wire, in order (a UDP_SEGMENT send of n bytes with
+       size s is ceil(n/s) datagrams of s bytes, the last shorter); delivered = (length, hash) of every payload the
+       ListenOut callback got, in order *)
 
 (* the observed pieces, rebuilt from their lengths (meaningful when content_ok) *)
 Fixpoint cut (p : list N) (lens : list N) : list (list N) :=
@@ -48,8 +54,23 @@ Definition split_spec_ok (p : list N) (seg : Z) (pieces : list (list N)) : bool 
     && (Z.of_nat (length (last pieces [])) <=? seg)%Z
   else pieces_eqb pieces [p].
 
+Definition pair_eqb (a b : N * N) : bool := (fst a =? fst b) && (snd a =? snd b).
+
+(* what the model delivers for one unit if the kernel hands it over as sent: a superdatagram with gso_size = seg,
+   or a plain datagram without a size (only lengths matter, the content is left out) *)
+Definition unit_lens (u : N * N) : list N :=
+  match deliver_segments (repeat 0 (N.to_nat (fst u))) (Z.of_N (snd u)) with
+  | Some pieces => map (fun x => N.of_nat (length x)) pieces
+  | None => []
+  end.
+
 Definition check_case (c : case) : list N :=
   match c with
+  | CListen units sent delivered =>
+      (* the property at system level: every datagram that was sent is delivered whole, exactly once, in order,
+         whatever an earlier datagram in the same receive slot carried *)
+      flag 1 (nlist_eqb (flat_map unit_lens units) (map fst delivered))
+      ++ flag 2 (list_eqb pair_eqb sent delivered)
   | CSplit ps seg lens content_ok panicked =>
       let p := unhex ps in
       let pieces := cut p lens in
